@@ -83,7 +83,7 @@ Proof.
 Qed.
 
 Lemma sys_fir_waveform_lemma : forall sc st ts c0 taps',
-  noisy (ant_cfg sc) = false -> fe_taps sc = c0 :: taps' ->
+  noisy (ant_cfg sc) = false -> fe_taps sc = c0 :: taps' -> fe_shift sc = None ->
   wf_window ts -> uniform ts ->
   (length (fe_taps sc) <= S (Z.to_nat (lead_in_n sc ts)))%nat ->
   let dt := t_second ts - t_first ts in
@@ -91,7 +91,7 @@ Lemma sys_fir_waveform_lemma : forall sc st ts c0 taps',
   sig_eq (snd (s_full_waveform sc st ts))
          (mkSig ts (map (fir_response (fe_taps sc) (fun u => sum_at (signals (ant st)) u * fe_scale sc) dt) ts)).
 Proof.
-  intros sc st ts c0 taps' Hn Htaps Hw Hu Hmem dt. unfold s_full_waveform.
+  intros sc st ts c0 taps' Hn Htaps Hshift Hw Hu Hmem dt. unfold s_full_waveform.
   rewrite fw_noiseless by exact Hn. cbn [fst snd]. split; [destruct st; reflexivity|].
   set (lt := lead_in_times sc ts). set (sigs := signals (ant st)). set (n := Z.to_nat (lead_in_n sc ts)) in *.
   pose proof (lead_in_times_window sc ts Hw) as Hwl. fold lt in Hwl.
@@ -101,7 +101,7 @@ Proof.
   assert (Hvl : length vals = length lt) by (rewrite (Forall2_Qeq_length _ _ Hv), map_length; reflexivity).
   assert (Hltlen : length lt = (n + length ts)%nat).
   { unfold lt, lead_in_times. rewrite app_length. unfold linspace_open. rewrite map_length, seq_length. reflexivity. }
-  unfold sig_eq, with_times, front_end. rewrite Htaps. rewrite <- Htaps. cbn [s_times s_values]. fold vals.
+  unfold sig_eq, with_times, front_end. rewrite Hshift. rewrite Htaps. rewrite <- Htaps. cbn [s_times s_values]. fold vals.
   split; [reflexivity|].
   set (scaled := map (fun v => v * fe_scale sc) vals).
   assert (Hsl : length scaled = length lt) by (unfold scaled; rewrite map_length; exact Hvl).
